@@ -425,7 +425,11 @@ def blt(p, names=None, title='t'):
     out.append('0')
     for c in range(1, p['n'] + 1):
         out.append('"%s"' % (names[c] if names else 'C%d' % c))
-    out.append('"%s"' % title)
+    out.append('"%s"' % p.get('title', title))
+    if p.get('source') is not None:
+        out.append('"%s"' % p['source'])
+        if p.get('comment') is not None:
+            out.append('"%s"' % p['comment'])
     return '\n'.join(out) + '\n'
 
 
